@@ -27,7 +27,7 @@ ASSUMPTIONS = ['tasks are shorter than flush\'s own 10 s per-task wait', 'a refu
 REQUIRE = {'tasks_tracked': 2000, 'flushes_checked': 300, 'flush_with_running_failure': 80, 'sends_checked': 1500,
            'failed_sends': 100, 'unconvertible': 100, 'post_close_submits': 200, 'yield_points': 2000,
            'submits_during_flush': 30, 'twin_handler_flushes': 40, 'backlog_flushes': 1,
-           'concurrent_second_flushes': 20}
+           'concurrent_second_flushes': 20, 'racing_submitters': 60}
 
 
 def plan(tier, seed):
@@ -142,9 +142,32 @@ def case_tasks(seed, out, spec):
         except BaseException as e:  # noqa
             result['raised'] = e
         # postcondition evaluated right at return
+        result['returned_at'] = time.monotonic()
         result['undone'] = [i for i, f in zip(accepted, futures) if not f.done()]
         lf = late_during.get('future')
         result['late_undone'] = lf is not None and not lf.done()
+
+    # another thread keeps handing over work from just before flush() is called until it is refused: whatever was
+    # accepted has finished when flush() returns (accepted-then-drained or refused, nothing in between)
+    racing = {'accepted': [], 'refused': 0}
+    racer = None
+    if r.chance(0.35):
+        def race_submit():
+            flush_started.wait(10)
+            for k in range(400):
+                rec = {}
+
+                def quick(rec=rec):
+                    time.sleep(0.01)
+                    rec['finished'] = time.monotonic()
+                try:
+                    rec['future'] = handler.submit_task(quick)
+                    racing['accepted'].append(rec)
+                except BaseException:  # noqa
+                    racing['refused'] += 1
+                    break
+        racer = threading.Thread(target=race_submit)
+        racer.start()
 
     # sometimes a second caller flushes while the first flush is still waiting (shutdown from two places): it, too,
     # may only return once everything accepted has finished
@@ -197,6 +220,22 @@ def case_tasks(seed, out, spec):
     elif result.get('undone'):
         out.violation('flush:returned-early', 'flush() returned while tasks %s were unfinished' % result['undone'],
                       witness, replay)
+    if racer is not None:
+        racer.join(30)
+        for rec in racing['accepted']:
+            try:
+                rec['future'].exception(timeout=10)
+            except BaseException:  # noqa
+                pass
+        out.count('racing_submitters')
+        out.count('racing_submissions_accepted', len(racing['accepted']))
+        late = [rec for rec in racing['accepted'] if rec.get('finished') is None or (
+            result.get('returned_at') is not None and rec['finished'] > result['returned_at'])]
+        if late and result.get('raised') is None:
+            out.violation('submit:accepted-around-flush-start-not-drained',
+                          '%d of %d tasks handed over by another thread around the moment flush() closed the handler were '
+                          'accepted (no error) and finished only after flush() had returned' % (
+                              len(late), len(racing['accepted'])), witness, replay)
     if second_thread is not None:
         second_thread.join(30)
         out.count('concurrent_second_flushes')
